@@ -16,10 +16,14 @@ VF_CONC_STATIC("bucket,u32,e4,top128,bits32", uint32_t, BucketingPGMIndex<uint32
 VF_CONC_STATIC("bucket,u64,e8,top100,bits0", uint64_t, BucketingPGMIndex<uint64_t, 8, 100, 0>);
 VF_CONC_STATIC("ef,u32,e8", uint32_t, EliasFanoPGMIndex<uint32_t, 8>);
 VF_CONC_STATIC("ef,u64,e2", uint64_t, EliasFanoPGMIndex<uint64_t, 2>);
+VF_CONC_STATIC_BIG("ef,u64,e1", uint64_t, EliasFanoPGMIndex<uint64_t, 1>);
+VF_CONC_STATIC_BIG("comp,u64,e1,er4", uint64_t, CompressedPGMIndex<uint64_t, 1, 4>);
 #else
 VF_CONC_DYN("u32,u32,pgm16", uint32_t, uint32_t, PGMIndex<uint32_t, 16>);
 VF_CONC_DYN("u32,string,pgm4", uint32_t, std::string, PGMIndex<uint32_t, 4>);
 VF_CONC_DYN("u64,ptr,pgm8", uint64_t, uint64_t *, PGMIndex<uint64_t, 8>);
 VF_CONC_MD(3, uint64_t, 16);
+VF_CONC_STATIC_BIG("pgm,u32,e1,er1", uint32_t, PGMIndex<uint32_t, 1, 1>);
+VF_CONC_STATIC_BIG("bucket,u64,e1,top4096,bits0", uint64_t, BucketingPGMIndex<uint64_t, 1, 4096, 0>);
 #endif
 }
